@@ -20,7 +20,7 @@ func GetClientIP(r *http.Request) string {
 	}
 
 	if xri := r.Header.Get("X-Real-IP"); xri != "" {
-		return xri
+		return StripPort(strings.TrimSpace(xri))
 	}
 
 	if host, _, err := net.SplitHostPort(r.RemoteAddr); err == nil {
@@ -33,6 +33,18 @@ func GetClientIP(r *http.Request) string {
 // "host:port" or "[v6]:port" (the port changes from connection to connection, the client
 // does not). Anything that is not an IP address with a port is returned as it is.
 func StripPort(addr string) string {
+	// an IPv6 address in brackets without a port ("[2001:db8::1]") is that address
+	if strings.HasPrefix(addr, "[") && strings.HasSuffix(addr, "]") {
+		inner := addr[1 : len(addr)-1]
+		ip := inner
+		if i := strings.Index(ip, "%"); i >= 0 {
+			ip = ip[:i]
+		}
+		if net.ParseIP(ip) != nil {
+			return inner
+		}
+		return addr
+	}
 	host, _, err := net.SplitHostPort(addr)
 	if err != nil {
 		return addr
